@@ -160,7 +160,7 @@ def names_module():
 
     def post(batch, wd):
         hdr = open(os.path.join(wd, 'm.h')).read()
-        syms = re.findall(r'^U32 (m_[A-Za-z0-9_]+)\(mInstance\*i\);', hdr, re.M)
+        syms = re.findall(r'^U32 (m_[A-Za-z0-9_]+)\(mInstance\*\s*i\);', hdr, re.M)   # \s*: pretty format (-p)
         if len(syms) != len(batch.cases) or len(set(syms)) != len(syms):
             raise RuntimeError('export symbols not distinct/complete: %r' % syms)
         for c, sy, n in zip(batch.cases, syms, batch.names):
@@ -196,6 +196,9 @@ def main(tier):
         b.desc += ' (non-ASCII import names)'
         jobs.append(('config', b, {'cc': 'gcc', 'cflags': ('-O1',)}))
     jobs.append(('config', names_module(), {'cc': 'gcc', 'cflags': ('-O1',)}))
+    # every configuration again in the pretty-printed output format: the instantiation writers (Init*, Instantiate, NewChild, export wrappers)
+    # have their own -p branches
+    jobs += [(label, b, dict(kw, w2c2_args=tuple(kw.get('w2c2_args', ())) + ('-p',))) for label, b, kw in list(jobs)]
     seqlen = 3 if tier == 'quick' else 5
     for mem, data, table, elems, start in (('defined', 'one', 'defined', 1, 'defined'), ('imported', 'overlap', 'imported', 2, 'defined'),
                                            ('defined', 'passive+active', 'none', 0, 'none'), ('imported', 'globaloff', 'defined', 2, 'imported')):
@@ -212,6 +215,8 @@ def main(tier):
         b.seq_len = seqlen
         b.desc += ' (+NewChild)'
         jobs.append(('two-instances', b, {'cc': 'gcc', 'cflags': ('-O1', '-fsanitize=address') if tier == 'quick' else ('-O1',), 'drv_args': (seqlen, 1500), 'timeout': 1600, 'defines': ('-DLS_NEWCHILD',)}))
+        if table != 'none':
+            jobs.append(('two-instances', b, {'cc': 'gcc', 'cflags': ('-O1',), 'drv_args': (seqlen, 1500), 'timeout': 1600, 'defines': ('-DLS_NEWCHILD',), 'w2c2_args': ('-p',)}))
 
     def work(job):
         label, b, kw = job
